@@ -202,10 +202,27 @@ orc_parse_code (const char *code, OrcProgram ***programs, int *n_programs,
       continue;
     }
 
-    if (orc_line_is_directive (line)) {
-      orc_parse_handle_directive (parser, line);
-    } else {
-      orc_parse_handle_opcode (parser, line);
+    {
+      const int n_errors_before = orc_vector_length (&parser->errors);
+      OrcProgram *program_before = parser->program;
+      const char *msg = program_before ? orc_program_get_error (program_before) : NULL;
+      const int had_error = msg && msg[0];
+
+      if (orc_line_is_directive (line)) {
+        orc_parse_handle_directive (parser, line);
+      } else {
+        orc_parse_handle_opcode (parser, line);
+      }
+
+      /* a problem the construction API found on this line (one variable or
+       * instruction too many ...) and that no handler reported */
+      if (parser->program == program_before && parser->program && !had_error &&
+          orc_vector_length (&parser->errors) == n_errors_before) {
+        msg = orc_program_get_error (parser->program);
+        if (msg && msg[0]) {
+          orc_parse_add_error (parser, "%s", msg);
+        }
+      }
     }
   }
   orc_parse_free_line (parser);
